@@ -1547,6 +1547,123 @@ impl<K: Hash + Eq, V, E: OnEvictCallback, S: BuildHasher> RawLRU<K, V, E, S> {
         }
     }
 
+
+    /// Verification hook (feature `verif-hooks`): structural audit of the recency list.
+    ///
+    /// Walks the chain head→tail and tail→head over the raw links (not through the
+    /// iterators) and checks link symmetry, that the number of nodes equals the index
+    /// length, that every node is the index entry for its own key *by pointer*, and that
+    /// every index value is one of the walked nodes.
+    #[cfg(feature = "verif-hooks")]
+    pub fn verif_audit(&self) -> Result<(), alloc::string::String> {
+        use alloc::format;
+        let limit = self.map.len() + 2;
+        let mut fwd: Vec<*mut EntryNode<K, V>> = Vec::new();
+        unsafe {
+            if !(*self.head).prev.is_null() {
+                return Err(format!("head.prev is not null"));
+            }
+            if !(*self.tail).next.is_null() {
+                return Err(format!("tail.next is not null"));
+            }
+            let mut prev = self.head;
+            let mut cur = (*self.head).next;
+            while cur != self.tail {
+                if cur.is_null() {
+                    return Err(format!("null next link after {} nodes", fwd.len()));
+                }
+                if (*cur).prev != prev {
+                    return Err(format!("prev link of node {} does not point back", fwd.len()));
+                }
+                fwd.push(cur);
+                if fwd.len() > limit {
+                    return Err(format!(
+                        "forward walk exceeds index length {} (cycle or orphan nodes)",
+                        self.map.len()
+                    ));
+                }
+                prev = cur;
+                cur = (*cur).next;
+            }
+            if (*self.tail).prev != prev {
+                return Err(format!("tail.prev does not point at the last node"));
+            }
+            // backward walk
+            let mut n = 0usize;
+            let mut next = self.tail;
+            let mut cur = (*self.tail).prev;
+            while cur != self.head {
+                if cur.is_null() {
+                    return Err(format!("null prev link after {} nodes (backward)", n));
+                }
+                if (*cur).next != next {
+                    return Err(format!("next link of node {} (backward) does not point forward", n));
+                }
+                n += 1;
+                if n > limit {
+                    return Err(format!("backward walk exceeds index length {}", self.map.len()));
+                }
+                if fwd[fwd.len() - n] != cur {
+                    return Err(format!("backward walk disagrees with forward walk at {}", n));
+                }
+                next = cur;
+                cur = (*cur).prev;
+            }
+            if n != fwd.len() {
+                return Err(format!("forward walk {} nodes, backward walk {} nodes", fwd.len(), n));
+            }
+            if fwd.len() != self.map.len() {
+                return Err(format!(
+                    "list has {} nodes, index has {} entries",
+                    fwd.len(),
+                    self.map.len()
+                ));
+            }
+            for (i, node) in fwd.iter().enumerate() {
+                let key_ptr: *const K = (**node).key.as_ptr();
+                match self.map.get_key_value(&KeyRef { k: key_ptr }) {
+                    None => return Err(format!("node {} is not in the index", i)),
+                    Some((kr, v)) => {
+                        if kr.k != key_ptr {
+                            return Err(format!(
+                                "index key for node {} points at another key location",
+                                i
+                            ));
+                        }
+                        if v.as_ptr() != *node {
+                            return Err(format!("index entry for node {} points at another node", i));
+                        }
+                    }
+                }
+            }
+            for (kr, v) in self.map.iter() {
+                if !fwd.contains(&v.as_ptr()) {
+                    return Err(format!("index value is not a node of the list"));
+                }
+                let key_ptr: *const K = (*v.as_ptr()).key.as_ptr();
+                if kr.k != key_ptr {
+                    return Err(format!("index key does not point into its own node"));
+                }
+            }
+        }
+        Ok(())
+    }
+
+    /// Verification hook (feature `verif-hooks`): visit every entry, most recently used
+    /// first, by following the raw `next` links (at most `len() + 1` nodes are visited, so a
+    /// corrupted chain cannot loop forever).
+    #[cfg(feature = "verif-hooks")]
+    pub fn verif_walk<F: FnMut(&K, &V)>(&self, mut f: F) {
+        unsafe {
+            let mut cur = (*self.head).next;
+            let mut n = 0usize;
+            while cur != self.tail && !cur.is_null() && n <= self.map.len() {
+                f(&*(*cur).key.as_ptr(), &*(*cur).val.as_ptr());
+                cur = (*cur).next;
+                n += 1;
+            }
+        }
+    }
     #[inline]
     fn cb(&self, k: &K, v: &V) {
         if let Some(ref cb) = self.on_evict {
